@@ -13,7 +13,7 @@
 From Coq Require Import String.
 From PF Require Import Base.Bytes.
 From PF Require Formats.Stl Formats.StlProofs Formats.Splat Formats.Spz Formats.Pts Formats.PtsProofs.
-From PF Require Import Formats.PlyRead Formats.PrefixProofs.
+From PF Require Import Formats.PlyRead Formats.PrefixProofs Formats.PrefixCost Formats.PrefixSurplus.
 Open Scope list_scope.
 
 (* ---------------------------------------------------------------- binary STL *)
@@ -23,6 +23,18 @@ Theorem prefix_stl : forall hdr ts k,
   (k < length (Stl.write hdr ts))%nat -> Stl.read (firstn k (Stl.write hdr ts)) = None.
 Proof. exact StlProofs.read_prefix_rejected. Qed.
 Print Assumptions prefix_stl.
+
+(* stl.Read as it is since /repo 6d82ee8 reads the announced records in chunks of 4096: for EVERY chunk size >= 1 the
+   chunked reader is the one-pass reader (C07's StlProofs) ... *)
+Theorem stl_read_chunk_independent : forall k bytes, (1 <= k)%N -> Stl.read_chunked k bytes = Stl.read bytes.
+Proof. exact StlProofs.read_chunked_eq_read. Qed.
+Print Assumptions stl_read_chunk_independent.
+(* ... so the prefix theorem holds for the reader as it is now *)
+Theorem prefix_stl_chunked : forall hdr ts k,
+  length hdr = 80%nat -> bytes_ok hdr -> (N.of_nat (length ts) < 4294967296)%N ->
+  (k < length (Stl.write hdr ts))%nat -> Stl.read_chunked Stl.stl_chunk (firstn k (Stl.write hdr ts)) = None.
+Proof. exact StlProofs.big_file_cut_model. Qed.
+Print Assumptions prefix_stl_chunked.
 
 (* ---------------------------------------------------------------- .splat (record streamed) *)
 (* the first k bytes of a written file decode to exactly the k/32 splats wholly contained, in order, and the reader
@@ -81,6 +93,15 @@ Theorem prefix_ply_header : forall hdr h j, parse_header hdr = Ok h ->
 Proof. exact ply_header_prefix. Qed.
 Print Assumptions prefix_ply_header.
 
+(* the header cut at ANY byte.  readLine returns a line only when it ends in '\n' ([lines_of]: the terminated lines of
+   a byte string); [fields] = strings.Fields with '\r' removed, outside the model (any function). *)
+Theorem prefix_ply_header_bytes : forall (fields : list N -> list string) ls h k,
+  Forall no_nl ls -> parse_header (map fields ls) = Ok h ->
+  parse_header (map fields (lines_of (firstn k (join_lines ls)) [])) = Err EEof \/
+  parse_header (map fields (lines_of (firstn k (join_lines ls)) [])) = Ok h.
+Proof. exact ply_header_bytes_prefix. Qed.
+Print Assumptions prefix_ply_header_bytes.
+
 (* ---------------------------------------------------------------- PLY, ASCII (token level) *)
 (* cut after k complete body lines: the same threshold statement, c = lines the header promises (blank lines included) *)
 Theorem prefix_ply_ascii_lines : forall hdr lines m,
@@ -123,6 +144,34 @@ Theorem prefix_ply_ascii_face_token : forall hdr lines mesh h ve fe bs rows rest
                                      ++ firstn j rest ++ [firstn m (nth j rest [])]) |} = Err EDeclared.
 Proof. exact ply_ascii_face_line_cut. Qed.
 Print Assumptions prefix_ply_ascii_face_token.
+
+(* cuts that remove only SURPLUS tokens of the last line present (it keeps m > 0 tokens, at least those the reader
+   looks at): the result is the one for the complete line -- which prefix_ply_ascii_lines classifies.
+   (V) last line in the vertex block, m >= number of declared properties; rests on build_readers_cols_lt: every built
+   ASCII reader only looks at columns below the number of declared properties *)
+Theorem prefix_ply_ascii_surplus_vertex : forall hdr pre x m mesh h ve bs rows,
+  read_mesh {| pf_header := hdr; pf_body := BodyAscii (pre ++ [x]) |} = Ok mesh ->
+  parse_header hdr = Ok h ->
+  find_last_elem "vertex"%string (h_elems h) None = Some ve ->
+  build_readers false default_groups true (e_props ve) = Ok bs ->
+  read_vertices_ascii bs (length (e_props ve)) (pre ++ [x]) (Z.to_nat (e_count ve)) = Ok (rows, []) ->
+  (length (e_props ve) <= m)%nat -> (0 < m)%nat ->
+  read_mesh {| pf_header := hdr; pf_body := BodyAscii (pre ++ [firstn m x]) |} = Ok mesh.
+Proof. exact ply_ascii_surplus_vertex. Qed.
+Print Assumptions prefix_ply_ascii_surplus_vertex.
+(* (F) last line in the face block, m >= face_used *)
+Theorem prefix_ply_ascii_surplus_face : forall hdr pre x m mesh h ve fe bs rows rest rs ip tp,
+  read_mesh {| pf_header := hdr; pf_body := BodyAscii (pre ++ [x]) |} = Ok mesh ->
+  parse_header hdr = Ok h ->
+  find_last_elem "vertex"%string (h_elems h) None = Some ve ->
+  find_last_elem "face"%string (h_elems h) None = Some fe ->
+  build_readers false default_groups true (e_props ve) = Ok bs ->
+  read_vertices_ascii bs (length (e_props ve)) (pre ++ [x]) (Z.to_nat (e_count ve)) = Ok (rows, rest) ->
+  rest <> [] -> face_setup fe = Ok (rs, ip, tp) ->
+  (face_used rs x <= m)%nat -> (0 < m)%nat ->
+  read_mesh {| pf_header := hdr; pf_body := BodyAscii (pre ++ [firstn m x]) |} = Ok mesh.
+Proof. exact ply_ascii_surplus_face. Qed.
+Print Assumptions prefix_ply_ascii_surplus_face.
 
 (* ---------------------------------------------------------------- PTS (token level) *)
 (* a valid file: n lines of w >= 3 fields.  Every token-boundary strict prefix (j complete lines, m tokens of the
@@ -171,6 +220,68 @@ Print Assumptions decode_cost_stl_counts.
 Theorem decode_cost_splat : forall fuel l, (32 * read_raw_steps fuel l <= length l + 32)%nat.
 Proof. exact splat_read_cost. Qed.
 Print Assumptions decode_cost_splat.
+
+(* stl.Read as it is now: records ALLOCATED by the chunk loop (min(remaining, k) per iteration, before reading them)
+   are bounded by the records present plus one chunk, for any announced count *)
+Theorem decode_cost_stl_chunked : forall fuel k rem l,
+  (50 * read_chunks_alloc fuel k rem l <= N.of_nat (length l) + 50 * k)%N.
+Proof. exact stl_chunked_alloc_cost. Qed.
+Print Assumptions decode_cost_stl_chunked.
+
+(* PTS: iterations of the line loop and elements appended to the three arrays (after 6d82ee8) are bounded by the lines
+   present, for any announced count; the loop counter equals the points of an accepted file *)
+Theorem decode_cost_pts : forall count ls,
+  (pts_steps count ls <= length ls)%nat /\ (pts_alloc count ls <= 3 * length ls)%nat.
+Proof. exact pts_cost. Qed.
+Print Assumptions decode_cost_pts.
+Theorem decode_cost_pts_counts : forall c ls r, Pts.pts_read c ls = Some r -> pts_steps c ls = Pts.p_n r.
+Proof. exact pts_steps_ok. Qed.
+Print Assumptions decode_cost_pts_counts.
+(* the allocation before 6d82ee8 (three arrays of the announced count) has no such bound *)
+Theorem decode_cost_pts_pinned_alloc_refuted : forall c c0 : nat, exists count ls,
+  (pts_alloc_pinned count ls > c * length ls + c0)%nat.
+Proof. exact pts_alloc_pinned_refuted. Qed.
+Print Assumptions decode_cost_pts_pinned_alloc_refuted.
+
+(* binary PLY: record reads of the vertex loop and of the face loop are bounded by the bytes present for any announced
+   vertex / face count; so is the allocation under the REPAIRED discipline (arrays grow with the records read) *)
+Theorem decode_cost_ply_bin : forall e bs size n rs ip tp nf st bytes,
+  (size * rvb_steps e bs size n bytes <= length bytes + size)%nat /\
+  (rs <> [] -> faces_bin_steps e rs ip tp bytes nf st <= length bytes + 1)%nat /\
+  (size * ply_bin_alloc_repaired e bs size n bytes <= length bs * (length bytes + size))%nat.
+Proof.
+  intros. split; [apply ply_bin_vertex_steps|]. split; [intros H; apply ply_bin_face_steps; exact H|apply ply_bin_alloc_repaired_cost].
+Qed.
+Print Assumptions decode_cost_ply_bin.
+(* KNOWN FINDING c14:alloc-by-declared-count, visible in Coq: the faithful model of ply.ReadMesh's allocation --
+   make([]T, element.Count) in every built property reader before the first record is read -- is bounded by NO
+   c * (bytes present) + c0 *)
+Theorem decode_cost_ply_bin_alloc_refuted : forall bs, bs <> [] -> forall c c0 : nat, exists n bytes,
+  (ply_bin_alloc_faithful bs n bytes > c * length bytes + c0)%nat.
+Proof. exact ply_bin_alloc_faithful_refuted. Qed.
+Print Assumptions decode_cost_ply_bin_alloc_refuted.
+
+(* ASCII PLY: lines examined by the vertex loop (blank ones included), records stored, lines examined by the face loop,
+   and the repaired allocation are bounded by the lines present (a line is at least one byte) *)
+Theorem decode_cost_ply_ascii : forall bs np rs ip tp lines n nf st,
+  (rva_records bs np lines n <= rva_steps bs np lines n <= length lines)%nat /\
+  (faces_ascii_steps rs ip tp lines nf st <= length lines)%nat /\
+  (ply_ascii_alloc_repaired bs np lines n <= length bs * length lines)%nat.
+Proof.
+  intros. split; [apply ply_ascii_vertex_steps|]. split; [apply ply_ascii_face_steps|apply ply_ascii_alloc_repaired_cost].
+Qed.
+Print Assumptions decode_cost_ply_ascii.
+Theorem decode_cost_ply_ascii_alloc_refuted : forall bs, bs <> [] -> forall c c0 : nat, exists n lines,
+  (ply_ascii_alloc_faithful bs n lines > c * length lines + c0)%nat.
+Proof. exact ply_ascii_alloc_faithful_refuted. Qed.
+Print Assumptions decode_cost_ply_ascii_alloc_refuted.
+
+(* SPZ: each array is allocated at its announced size and then filled; a short stream ends the decode at that array.
+   Bytes allocated <= decompressed bytes present + 450 000 000 (one SH array at the reader's own limit of 10^7 points):
+   the announced count is capped by Header.Validate, so c0 is a constant of the format, not of the file *)
+Theorem decode_cost_spz : forall l, (spz_alloc l <= N.of_nat (length l) + 450000000)%N.
+Proof. exact spz_alloc_cost. Qed.
+Print Assumptions decode_cost_spz.
 
 (* ---------------------------------------------------------------- non-vacuity *)
 Open Scope string_scope.
